@@ -1,1 +1,123 @@
-fn main() { println!("{}", llfree::TREE_FRAMES); }
+//! llsim: deterministic simulation with fault injection for llfree-rs.
+mod buf;
+mod case;
+mod conc;
+mod crash;
+mod driver;
+mod exec;
+mod json;
+mod model;
+mod oracle;
+mod rng;
+mod seq;
+mod special;
+mod world;
+
+use std::collections::BTreeMap;
+use std::path::Path;
+
+fn usage() -> i32 {
+    eprintln!("usage: llsim check <Cxx> [--tier quick|thorough] | replay <file> | dev <props> <family> <runs> [seed] | gen <family> <seed> <index> <prop>");
+    2
+}
+
+fn main() {
+    exec::install_panic_hook();
+    world::install_hooks();
+    let args: Vec<String> = std::env::args().skip(1).collect();
+    let code = match args.first().map(String::as_str) {
+        Some("check") => {
+            let prop = args.get(1).cloned().unwrap_or_default();
+            let mut tier = std::env::var("VERIF_TIER").unwrap_or_else(|_| "quick".into());
+            if let Some(i) = args.iter().position(|a| a == "--tier") {
+                tier = args.get(i + 1).cloned().unwrap_or(tier);
+            }
+            driver::check(&prop, &tier)
+        }
+        Some("worker") => driver::worker(&args[1..]),
+        Some("replay") => match args.get(1) {
+            Some(f) => driver::replay_cmd(Path::new(f)),
+            None => usage(),
+        },
+        Some("replay-raw") => match args.get(1) {
+            Some(f) => match driver::replay_here(Path::new(f)) {
+                Ok((true, _)) => 1,
+                Ok(_) => 0,
+                Err(_) => 2,
+            },
+            None => usage(),
+        },
+        Some("dev") => dev(&args[1..]),
+        Some("min") => {
+            let s = std::fs::read_to_string(&args[1]).unwrap();
+            let j = json::J::parse(&s).unwrap();
+            let c = case::Case::from_json(j.get("case").unwrap()).unwrap();
+            let ctx = case::Ctx::new();
+            let prop = j.gs("property").to_string();
+            let props = oracle::Props::of(&[oracle::Props::id(&prop)]);
+            let (small, tries) = case::minimise(&c, &ctx, props, &prop, j.gs("signature"), 3000);
+            eprintln!("{tries} executions");
+            println!("{}", j.clone().set("case", small.to_json()).to_pretty());
+            0
+        }
+        _ => usage(),
+    };
+    std::process::exit(code);
+}
+
+/// Developer loop: run one family in-process, print violation signatures
+fn dev(args: &[String]) -> i32 {
+    let props: Vec<u32> = args[0].split(',').map(|x| x.parse().unwrap()).collect();
+    let props = oracle::Props::of(&props);
+    let family = &args[1];
+    let n: u64 = args[2].parse().unwrap();
+    let seed: u64 = args.get(3).and_then(|s| s.parse().ok()).unwrap_or(1);
+    let ctx = case::Ctx::new();
+    let t = std::time::Instant::now();
+    let mut viol = BTreeMap::<String, (u64, String, u64)>::new();
+    let mut foreign = BTreeMap::<String, u64>::new();
+    let mut counters = BTreeMap::<String, u64>::new();
+    let mut nontrivial = 0;
+    let dump = std::env::var("LLSIM_DUMP").ok();
+    for i in 0..n {
+        let rs = driver::run_seed(seed, family, i);
+        let (mut c, g) = case::Case::generate(family, rs, i, props);
+        let out = c.run(&ctx, props, g);
+        nontrivial += out.nontrivial as u64;
+        for (k, v) in out.counters {
+            *counters.entry(k).or_default() += v;
+        }
+        for v in out.violations {
+            let key = format!("{}:{}", v.prop, v.sig);
+            if !viol.contains_key(&key)
+                && let Some(d) = &dump
+            {
+                c.freeze();
+                let rec = json::J::obj()
+                    .set("property", v.prop)
+                    .set("signature", v.sig.clone())
+                    .set("detail", v.detail.clone())
+                    .set("case", c.to_json());
+                std::fs::write(format!("{d}/{}.json", key.replace([':', '/'], "_")), rec.to_pretty()).unwrap();
+            }
+            let e = viol.entry(key).or_insert((0, v.detail.clone(), i));
+            e.0 += 1;
+        }
+        if let Some(v) = out.foreign {
+            *foreign.entry(format!("{}:{}", v.prop, v.sig)).or_default() += 1;
+        }
+    }
+    println!("{n} runs ({nontrivial} non-trivial) in {:?}", t.elapsed());
+    if std::env::var("LLSIM_COUNTERS").is_ok() {
+        for (k, v) in &counters {
+            println!("  {k} = {v}");
+        }
+    }
+    for (k, (c, d, i)) in viol {
+        println!("VIOL {k} x{c} first run {i}: {d}");
+    }
+    for (k, c) in foreign {
+        println!("FOREIGN {k} x{c}");
+    }
+    0
+}
